@@ -39,7 +39,8 @@ type Dev struct {
 	Slot   string // "" = the whole file is replaced
 	Text   string
 	Absent bool // whole-file only: the file does not exist
-	Core   bool // takes part in 3-combinations (thorough)
+	Core   bool // combined pairwise in the quick tier (thorough pairs everything)
+	Triple bool // takes part in 3-combinations (thorough)
 }
 
 func (d Dev) class() string {
@@ -47,6 +48,66 @@ func (d Dev) class() string {
 		return d.Class
 	}
 	return d.ID
+}
+
+// variant is the part of the id after "file#slot=" or "file:".
+func (d Dev) variant() string {
+	if d.Slot != "" {
+		return strings.TrimPrefix(d.ID, d.File+"#"+d.Slot+"=")
+	}
+	return strings.TrimPrefix(d.ID, d.File+":")
+}
+
+// applyTiers sets Core / Triple from selection tables.
+func applyTiers(devs []Dev, pairs, triples map[string]string) {
+	sel := func(m map[string]string, dv *Dev) bool {
+		k := dv.File + ":"
+		if dv.Slot != "" {
+			k = dv.File + "#" + dv.Slot
+		}
+		v, ok := m[k]
+		if !ok {
+			return false
+		}
+		if v == "*" {
+			return true
+		}
+		for _, n := range strings.Fields(v) {
+			if n == dv.variant() {
+				return true
+			}
+		}
+		return false
+	}
+	used := map[string]bool{}
+	for i := range devs {
+		devs[i].Core = sel(pairs, &devs[i])
+		devs[i].Triple = sel(triples, &devs[i])
+		if devs[i].Core || devs[i].Triple {
+			k := devs[i].File + ":"
+			if devs[i].Slot != "" {
+				k = devs[i].File + "#" + devs[i].Slot
+			}
+			used[k+"="+devs[i].variant()] = true
+			used[k] = true
+		}
+	}
+	// a selection that names nothing is a typo in the table
+	for _, m := range []map[string]string{pairs, triples} {
+		for k, v := range m {
+			if !used[k] {
+				panic("c20: tier table names unknown slot " + k)
+			}
+			if v == "*" {
+				continue
+			}
+			for _, n := range strings.Fields(v) {
+				if !used[k+"="+n] {
+					panic("c20: tier table names unknown variant " + k + "=" + n)
+				}
+			}
+		}
+	}
 }
 
 func conflict(a, b *Dev) bool {
@@ -76,6 +137,8 @@ type docEntry struct {
 	exec func(e *env, fs fileset) []res
 	// maxK overrides the combination depth (0 = 2 quick / 3 thorough)
 	maxK func(thorough bool) int
+	// pairAll: the table is small; combine every deviation in every tier
+	pairAll bool
 
 	byID map[string]*Dev
 	memo map[string][]res
@@ -347,6 +410,9 @@ func (d *docEntry) Explore(e *env) {
 		if !c.NextMine() {
 			return
 		}
+		if e.overBudget() {
+			return
+		}
 		if len(ids) >= 2 {
 			if kb := e.knownSubset(d.name, ids); kb != nil {
 				// a sub-combination already kills the process (reported on its own)
@@ -398,28 +464,34 @@ func (d *docEntry) Explore(e *env) {
 		one([]string{d.devs[i].ID})
 	}
 	if k >= 2 {
+		// quick: pairs over the Core deviations; thorough: pairs over all
+		// (truncations stay single deviations)
+		all := c.Thorough() || d.pairAll
+		np := 0
 		for i := 0; i < n; i++ {
 			a := &d.devs[i]
-			if isTrunc(a) {
+			if isTrunc(a) || !(all || a.Core) {
 				continue
 			}
+			np++
 			for j := i + 1; j < n; j++ {
 				b := &d.devs[j]
-				if isTrunc(b) || conflict(a, b) {
+				if isTrunc(b) || !(all || b.Core) || conflict(a, b) {
 					continue
 				}
 				one([]string{a.ID, b.ID})
 			}
 		}
+		c.Bound(d.name+"_pairwise_deviations", fmt.Sprint(np))
 	}
 	if k >= 3 {
 		var core []int
 		for i := range d.devs {
-			if d.devs[i].Core && !isTrunc(&d.devs[i]) {
+			if (d.devs[i].Triple || d.pairAll) && !isTrunc(&d.devs[i]) {
 				core = append(core, i)
 			}
 		}
-		c.Bound(d.name+"_core_deviations", fmt.Sprint(len(core)))
+		c.Bound(d.name+"_triple_deviations", fmt.Sprint(len(core)))
 		for x := 0; x < len(core); x++ {
 			a := &d.devs[core[x]]
 			for y := x + 1; y < len(core); y++ {
